@@ -3,7 +3,7 @@ from __future__ import annotations
 
 from fractions import Fraction
 
-from .. import core, gen, impl_thr, scen
+from .. import core, gen, impl_thr, runlib, scen
 from . import c01, c04
 
 ID = "C05"
@@ -111,7 +111,7 @@ def specs(r):
 
 def direct_specs(r):
     """arguments of the priority function: (now - due in seconds, job, max_exec, #registered), once per job"""
-    fails = []
+    fails = runlib.waiting_unchanged(r, "a job left waiting by the limit did not keep its due time / counters")
     scn = r["scn"]
     for i, (o, ob) in enumerate(zip(scn["ops"], r["obs"])):
         if "truncated" in ob:
